@@ -44,7 +44,7 @@ for mk, elab in ((RD.replaced, False), (RD.scratch, True)):
   except Exception as e:
     if not elab: reproduced(f"history {name}: the replaced design cannot be simulated: {type(e).__name__}: {str(e)[:200]}")
     raise
-if tr[0] != tr[1]: reproduced(f"history {name} {RD.HISTORIES[name][0]}: (out, tap) trace {tr[0]} after replacement, {tr[1]} when built from scratch (inputs {cycles})")
+if tr[0] != tr[1]: reproduced(f"history {name} {RD.history_of(name)}: (out, tap) trace {tr[0]} after replacement, {tr[1]} when built from scratch (inputs {cycles})")
 '''
 
 
@@ -56,9 +56,9 @@ from vlib.meta import canon_meta, diff_meta, stale_objects
 name = %(name)r
 a = RD.replaced(name); b = RD.scratch(name); b.elaborate()
 d = diff_meta(canon_meta(a), canon_meta(b))
-if d: reproduced(f"history {name} {RD.HISTORIES[name][0]}: queryable metadata differs from the design built from scratch: " + "; ".join(d))
+if d: reproduced(f"history {name} {RD.history_of(name)}: queryable metadata differs from the design built from scratch: " + "; ".join(d))
 st = stale_objects(a)
-if st: reproduced(f"history {name} {RD.HISTORIES[name][0]}: objects of a removed component are still recorded: " + "; ".join(st))
+if st: reproduced(f"history {name} {RD.history_of(name)}: objects of a removed component are still recorded: " + "; ".join(st))
 '''
 
 
@@ -137,7 +137,7 @@ def item(it):
                                       replay=REPLAY % dict(name=name, state={n: g(x) for n, x in probe.items()}, cycles=[g(x) for x in ins])))
       else: res['inconclusive'].append("solver unknown")
   res['twins_expected'] = 0
-  res['samples'].append({'history': RD.HISTORIES[name][0], 'cells': len(names_a), 'cycles': K})
+  res['samples'].append({'history': RD.history_of(name), 'cells': len(names_a), 'cycles': K})
   return res.r
 
 
@@ -146,10 +146,10 @@ def main():
   chk = Check('C15', tier)
   from corpus import replace_designs as RD
   K = 3 if tier == 'quick' else 5
-  items = [dict(name=n, K=K) for n in RD.HISTORIES]
+  items = [dict(name=n, K=K) for n in RD.all_names()]
   for it, r in pmap(item, items, item_timeout=900):
     chk.absorb(it, r)
-  chk.bounds = dict(histories=list(RD.HISTORIES), cycles=K, state='arbitrary initial state of every cell, symbolic input every cycle')
+  chk.bounds = dict(histories=RD.all_names(), cycles=K, state='arbitrary initial state of every cell, symbolic input every cycle')
   chk.outside = ['histories outside the corpus', 'method-port (CL) children other than the internal method net history']
   chk.assumptions = ['scheduler = DynamicSchedulePass']
   chk.finish(rule="per history: the replaced design can be prepared for simulation; same set of simulated signal cells; one obligation per joint path: every same-named cell equal after every eval and tick for k cycles; two structural obligations per history (direct comparison, no solver): canonical metadata (components, signals, named objects, value and method nets with writers, adjacency, update/ff/once blocks, read/write/call sets, U-U, RD-U, WR-U and method constraints) equal to the from-scratch design; no recorded object that its own name does not evaluate to")
